@@ -1712,6 +1712,9 @@ fn gen_glue_directed2(prop: &str, out: &mut Out, thorough: bool) {
                 out.req("stream_write", format!("stream_write {} 010203", hex_of_str(n)));
             }
             out.req("snapshot", "snapshot".into());
+            // a table without any column
+            out.req("no_columns", format!("create_table {}", hex_of_str("Bare")));
+            out.req("snapshot", "snapshot".into());
             for t in ["Icon", "Binary", "Icon.AppIcon", "Nope"] {
                 out.req("drop_missing", format!("drop_table {}", hex_of_str(t)));
                 out.req("snapshot", "snapshot".into());
